@@ -135,6 +135,24 @@ func (in *Interp) intrinsic(caller *frame, name string, args []value, pos token.
 			return tFalse
 		}
 		return in.jsonEq(a, b)
+	case "And", "Or":
+		var ts []*Term
+		for _, e := range args[0].(*Slice).Data {
+			ts = append(ts, e.(*Term))
+		}
+		if name == "And" {
+			return And(ts...)
+		}
+		return Or(ts...)
+	case "Not":
+		return Not(args[0].(*Term))
+	case "Implies":
+		return Implies(args[0].(*Term), args[1].(*Term))
+	case "InRange":
+		c := args[0].(*Term)
+		return And(ULe(args[1].(*Term), c), ULe(c, args[2].(*Term)))
+	case "IteU64":
+		return Ite(args[0].(*Term), args[1].(*Term), args[2].(*Term))
 	case "SameObject":
 		return Bool(sameObject(args[0], args[1]))
 	}
